@@ -23,6 +23,8 @@ SPEC = [
          ensures_ok=["len(ret.Ok._0._0) + 2 <= len(a1)"], why="progress"),
     dict(fn="buf::buffer::Buffer::push_u8_unchecked", requires=["a1.pos >= 1"], ensures=["a1.pos <= old(a1.pos)"],
          why="callers reserve space with ensure_size / is_full first"),
+    dict(fn="buf::buffer::Buffer::ensure_size", ensures_err=["a1.pos < a2"],
+         why="a push is refused only when it does not fit: a request that fills the buffer exactly is accepted"),
     dict(fn="buf::buffer::Buffer::set_bookmark", requires=["a2 <= 4080"], why="delta is the header size of the auth parameters"),
     dict(fn="buf::buffer::Buffer::as_slice", requires=["a2 <= 4080"], why="len is the size returned by recv into this buffer"),
     dict(fn="buf::buffer::Buffer::get_bookmark", requires=["a1.bookmark >= a1.pos"],
@@ -228,11 +230,13 @@ class Contract:
         self.ensures = [(c, s) for s in specs for c in s.get("ensures", [])]
         self.ensures_ok = [(c, s) for s in specs for c in s.get("ensures_ok", [])]
         self.ensures_some = [(c, s) for s in specs for c in s.get("ensures_some", [])]
+        # necessity of a refusal: holds at every Err return (checked on the callee side only, never assumed by callers)
+        self.ensures_err = [(c, s) for s in specs for c in s.get("ensures_err", [])]
 
     # ---- helpers
     def _old_exprs(self):
         out = []
-        for c, _ in self.ensures + self.ensures_ok + self.ensures_some:
+        for c, _ in self.ensures + self.ensures_ok + self.ensures_some + self.ensures_err:
             for n in ast.walk(ast.parse(c, mode="eval")):
                 if isinstance(n, ast.Call) and isinstance(n.func, ast.Name) and n.func.id == "old":
                     out.append(n.args[0])
@@ -359,7 +363,7 @@ class Contract:
                     cond = None
                 eng.oblige(e, fr, "ensures[%s]" % text, "ensures", body.line, cond if cond is not None else ("const", False), "contract",
                            "" if cond is not None else "cannot evaluate the postcondition `%s` at this return" % text)
-            for vname, clauses in (("Ok", self.ensures_ok), ("Some", self.ensures_some)):
+            for vname, clauses in (("Ok", self.ensures_ok), ("Some", self.ensures_some), ("Err", self.ensures_err)):
                 if not clauses:
                     continue
                 d_ok = None
